@@ -165,3 +165,33 @@ Proof.
       cbn [In] in I; repeat (destruct I as [<-|I]; [try (cbn in TR; discriminate TR)|]); try (destruct I).
   - destruct I.
 Qed.
+
+(* (b), what the sweep does to an overdue waiter: it is no longer live afterwards (it was answered TIMEOUT by this
+   sweep, or granted by one of its wake-up passes) *)
+Theorem sweep_answers_overdue s r l :
+  TA s -> TW [] (checkT s) s -> (now s < checkT s + 7)%Z -> ~ has_panic (snd (sweep_timeouts s)) ->
+  tlive s r l -> (l_tT l <= now s)%Z -> tdead (fst (sweep_timeouts s)) r.
+Proof.
+  intros T W LAG NP [G LV] DUE l' G'. destruct (l_timeouted l') eqn:LV'; auto. exfalso.
+  destruct (sweep_timeouts_no_loss s T W LAG NP) as [_ B]. specialize (B r l' (conj G' LV')).
+  destruct (proj2 (sweep_timeouts_lmono s T) r l' (conj G' LV')) as (l0 & [G0 _] & (S1 & _)).
+  rewrite G in G0. injection G0 as <-. lia.
+Qed.
+
+(* (c) Timeout = 0: the request is never queued -- the step is a timeout frame: the timeout wheel is untouched, the
+   long table does not grow, no waiter becomes live *)
+Theorem lock_timeout0_not_queued s conn c :
+  TA s -> core_cmd c -> c_timeout c = 0 ->
+  cframe s (fst (fst (lock_step s conn c))) /\ twheel (fst (fst (lock_step s conn c))) = twheel s
+  /\ (forall r l', tlive (fst (fst (lock_step s conn c))) r l' -> exists l, tlive s r l)
+  /\ forall e, In e (snd (fst (lock_step s conn c))) -> is_tr e = true -> immediate_timeout conn c e.
+Proof.
+  intros T Cc T0.
+  destruct (lock_step_shape core_cmd core_dummy (fun c H => H) s conn c (ta_hd _ T) (ta_hf _ T) Cc (fun x => core_lockid c x Cc))
+    as [F|(s0 & c1 & F0 & NX & NW & CK & C1 & HS & E1 & E2 & E3 & TO & MS)].
+  - lsplit; auto.
+    + apply (tf_wheel _ _ _ F).
+    + intros r l' LV. destruct (proj2 (lmono_frame _ _ _ F) r l' LV) as (l & L & _). eauto.
+    + apply lock_step_timeout_replies.
+  - exfalso. assert (c_timeout c1 = 0) as Z0 by (destruct C1 as [->|[x ->]]; auto). rewrite Z0 in TO. discriminate.
+Qed.
